@@ -1,3 +1,4 @@
+use std::collections::{HashMap, HashSet};
 use std::sync::Arc;
 
 use simplicity::dag::{InternalSharing, PostOrderIterItem};
@@ -158,17 +159,117 @@ pub fn to_witness_node(node: &ConstructNode, values: WitnessValues) -> Arc<Witne
     prune_witness_values(&populated)
 }
 
-/// Infer the types of a pruned redeem program again, from the pruned program alone.
+/// Infer the types of a pruned redeem program again, from the pruned program alone,
+/// and take its witness values from the unpruned program.
 ///
 /// Pruning replaces unused case branches by their CMR. Nodes that are shared between a hidden
 /// branch and the rest of the program keep the typing constraints of the hidden branch,
 /// so the pruned program can be typed more specifically than a decoder will ever infer from its
 /// encoding. Witness values of such a type are then encoded with bits that the decoder rejects.
 /// Inferring the types once more and shrinking the witness values accordingly removes the excess.
+///
+/// The witness values that [`simplicity::RedeemNode::prune`] leaves in the pruned program are
+/// not used: it shrinks them with [`simplicity::Value::prune`] (see [`prune_value`]).
+/// The values of the unpruned program are shrunk instead.
 pub fn retype_redeem_node(
-    node: &simplicity::RedeemNode<Elements>,
+    unpruned: &simplicity::RedeemNode<Elements>,
+    pruned: &simplicity::RedeemNode<Elements>,
 ) -> Result<Arc<simplicity::RedeemNode<Elements>>, simplicity::Error> {
-    prune_witness_values(&node.to_construct_node()).finalize_unpruned()
+    struct ToWitnessNode<'a> {
+        inference_context: types::Context,
+        unpruned_values: HashMap<*const simplicity::RedeemNode<Elements>, &'a simplicity::Value>,
+    }
+
+    impl Converter<node::Redeem<Elements>, node::Construct<Elements>> for ToWitnessNode<'_> {
+        type Error = types::Error;
+
+        fn convert_witness(
+            &mut self,
+            data: &PostOrderIterItem<&simplicity::RedeemNode<Elements>>,
+            witness: &simplicity::Value,
+        ) -> Result<Option<simplicity::Value>, Self::Error> {
+            let key: *const simplicity::RedeemNode<Elements> = data.node;
+            let value = self.unpruned_values.get(&key).copied().unwrap_or(witness);
+            Ok(Some(value.shallow_clone()))
+        }
+
+        fn convert_disconnect(
+            &mut self,
+            _: &PostOrderIterItem<&simplicity::RedeemNode<Elements>>,
+            right: Option<&Arc<WitnessNode<Elements>>>,
+            _: &Arc<simplicity::RedeemNode<Elements>>,
+        ) -> Result<Option<Arc<WitnessNode<Elements>>>, Self::Error> {
+            Ok(right.cloned())
+        }
+
+        fn convert_data(
+            &mut self,
+            _: &PostOrderIterItem<&simplicity::RedeemNode<Elements>>,
+            inner: Inner<
+                &Arc<WitnessNode<Elements>>,
+                Elements,
+                &Option<Arc<WitnessNode<Elements>>>,
+                &Option<simplicity::Value>,
+            >,
+        ) -> Result<WitnessData<Elements>, Self::Error> {
+            let inner = inner
+                .map(Arc::as_ref)
+                .map(WitnessNode::<Elements>::cached_data)
+                .map_witness(Option::<simplicity::Value>::clone);
+            WitnessData::from_inner(&self.inference_context, inner)
+        }
+    }
+
+    let mut converter = ToWitnessNode {
+        inference_context: types::Context::new(),
+        unpruned_values: unpruned_witness_values(unpruned, pruned),
+    };
+    let witness_node = pruned
+        .convert::<InternalSharing, _, _>(&mut converter)
+        .map_err(simplicity::Error::Type)?;
+    prune_witness_values(&witness_node).finalize_unpruned()
+}
+
+/// Map each witness node of the `pruned` program to the value of the node of the `unpruned`
+/// program that it stems from.
+///
+/// The pruned program is the unpruned program with some case branches hidden,
+/// so the two programs are walked in parallel.
+fn unpruned_witness_values<'a>(
+    unpruned: &'a simplicity::RedeemNode<Elements>,
+    pruned: &'a simplicity::RedeemNode<Elements>,
+) -> HashMap<*const simplicity::RedeemNode<Elements>, &'a simplicity::Value> {
+    let mut values = HashMap::new();
+    let mut seen = HashSet::new();
+    let mut stack = vec![(unpruned, pruned)];
+    while let Some((unpruned, pruned)) = stack.pop() {
+        let key: (*const _, *const _) = (unpruned, pruned);
+        if !seen.insert(key) {
+            continue;
+        }
+        match (unpruned.inner(), pruned.inner()) {
+            (Inner::Witness(value), Inner::Witness(_)) => {
+                values.insert(pruned as *const _, value);
+            }
+            (Inner::Case(u_l, _), Inner::AssertL(p_l, _))
+            | (Inner::AssertL(u_l, _), Inner::AssertL(p_l, _)) => stack.push((u_l, p_l)),
+            (Inner::Case(_, u_r), Inner::AssertR(_, p_r))
+            | (Inner::AssertR(_, u_r), Inner::AssertR(_, p_r)) => stack.push((u_r, p_r)),
+            (Inner::InjL(u), Inner::InjL(p))
+            | (Inner::InjR(u), Inner::InjR(p))
+            | (Inner::Take(u), Inner::Take(p))
+            | (Inner::Drop(u), Inner::Drop(p)) => stack.push((u, p)),
+            (Inner::Comp(u_l, u_r), Inner::Comp(p_l, p_r))
+            | (Inner::Case(u_l, u_r), Inner::Case(p_l, p_r))
+            | (Inner::Pair(u_l, u_r), Inner::Pair(p_l, p_r))
+            | (Inner::Disconnect(u_l, u_r), Inner::Disconnect(p_l, p_r)) => {
+                stack.push((u_l, p_l));
+                stack.push((u_r, p_r));
+            }
+            _ => {}
+        }
+    }
+    values
 }
 
 /// Shrink `value` to the type `pruned_ty`, which is the type of `value` with some parts replaced by unit.
